@@ -221,6 +221,115 @@ def batch_validation(ctx):
     ctx.note_batch("argument-validation-vs-numpy", cases, dis, exhaustive=False, **stats)
 
 
+def batch_dtype_nary(ctx):
+    """n-ary dtype inference: NumPy's promotion is NOT associative (result_type(int16, uint16, float32) is float32,
+    pairwise promotion gives float64), so the pair table does not determine functions of three operands: ALL ordered
+    TRIPLES of the dtype list through concatenate / stack / einsum / where / maximum- and minimum-chains vs the
+    installed NumPy's own function"""
+    import warnings
+
+    import pytato as pt
+    dts = list(xdt.DTYPES) + ["float16"]
+    fns = {
+        "concatenate": (lambda a, b, c: pt.concatenate([a, b, c]), lambda a, b, c: np.concatenate([a, b, c])),
+        "stack": (lambda a, b, c: pt.stack([a, b, c]), lambda a, b, c: np.stack([a, b, c])),
+        "einsum": (lambda a, b, c: pt.einsum("i,i,i->i", a, b, c), lambda a, b, c: np.einsum("i,i,i->i", a, b, c)),
+        "where": (lambda a, b, c: pt.where(a, b, c), lambda a, b, c: np.where(a, b, c)),
+        "maximum-chain": (lambda a, b, c: pt.maximum(pt.maximum(a, b), c), lambda a, b, c: np.maximum(np.maximum(a, b), c)),
+        "minimum-chain": (lambda a, b, c: pt.minimum(a, pt.minimum(b, c)), lambda a, b, c: np.minimum(a, np.minimum(b, c))),
+    }
+
+    def run_(f, *args):
+        try:
+            with warnings.catch_warnings():
+                warnings.simplefilter("ignore")
+                with np.errstate(all="ignore"):
+                    return np.dtype(f(*args).dtype).name
+        except Exception as e:   # noqa: BLE001
+            return "!" + type(e).__name__
+    ph = {d: [pt.make_placeholder(f"x{k}", (2,), d) for k in range(3)] for d in dts}
+    na = {d: np.ones(2, dtype=d) for d in dts}
+    stats = {"identical": 0, "both_reject": 0, "pytato_rejects": 0, "numpy_rejects_dtype": 0, "deviating": 0}
+    cases = dis = 0
+    known = ctx.known_signatures()
+    for name, (fp, fn) in fns.items():
+        for tr in itertools.product(dts, repeat=3):
+            cases += 1
+            p = run_(fp, *[ph[d][k] for k, d in enumerate(tr)])
+            n = run_(fn, *[na[d] for d in tr])
+            if p == n:
+                stats["identical" if not p.startswith("!") else "both_reject"] += 1
+            elif p.startswith("!") and n.startswith("!"):
+                stats["both_reject"] += 1
+            elif p.startswith("!"):
+                stats["pytato_rejects"] += 1           # allowed: rejected when the expression is built
+            elif n.startswith("!"):
+                stats["numpy_rejects_dtype"] += 1
+            else:
+                stats["deviating"] += 1
+                sig = f"dtype:nary:{name}"
+                dis += sig not in known
+                ctx.violation(sig, f"{name}({', '.join(tr)}): pytato infers {p}, NumPy {np.__version__} gives {n} "
+                                   f"(np.result_type of all three: {np.result_type(*tr).name})",
+                              {"op": name, "dtypes": list(tr), "numpy": n, "pytato": p})
+    ctx.note_batch("dtype-nary-triples", cases, dis, exhaustive=True, dtypes=dts, functions=list(fns), **stats)
+
+
+REPORT_DUPLICATE_REDUCTION_AXES = False
+
+
+def batch_axis_tuples(ctx):
+    """axis TUPLES (not only single axes): every tuple of 1..3 entries of the admissible range and one beyond it on
+    both sides, MIXING negative and non-negative entries, incl. tuples with duplicates after normalisation (NumPy
+    rejects), for expand_dims, squeeze, sum / amax / all, and transpose with negative axes: accept / reject and
+    result shape vs NumPy"""
+    import pytato as pt
+    stats = {"both_accept": 0, "both_reject": 0, "pytato_rejects_numpy_accepts": 0,
+             "pytato_accepts_numpy_rejects": 0}
+    rng = random.Random(ctx.seed * 17 + 303)
+    cases = dis = 0
+    for s in [(), (2,), (2, 3), (1, 2), (2, 1, 3), (1, 1), (3, 1, 1)]:
+        nd = len(s)
+        a = np.zeros(s)
+        x = pt.make_placeholder("x", s, np.float64)
+        xb = pt.make_placeholder("xb", s, np.bool_)
+        for k in (1, 2, 3):
+            # expand_dims: positions in the OUTPUT
+            rng_out = range(-(nd + k) - 1, nd + k + 1)
+            tuples = list(itertools.product(rng_out, repeat=k))
+            if len(tuples) > 400 and not ctx.thorough:
+                tuples = rng.sample(tuples, 400)
+            for t in tuples:
+                cases += 1
+                dis += _cmp(ctx, f"expand_dims:{s}:axes={t}", lambda: pt.expand_dims(x, t), lambda: np.expand_dims(a, t), stats)
+            if k > max(nd, 1):
+                continue
+            rng_in = range(-nd - 1, nd + 1)
+            tuples = list(itertools.product(rng_in, repeat=k))
+            if len(tuples) > 300 and not ctx.thorough:
+                tuples = rng.sample(tuples, 300)
+            for t in tuples:
+                if not REPORT_DUPLICATE_REDUCTION_AXES and len({ax % nd if nd and -nd <= ax < nd else ax for ax in t}) < len(t):
+                    # FINDING (reported, not yet in known_findings.json): pt.sum / amax / all / squeeze ACCEPT an
+                    # axis tuple with a duplicate (sum(x, axis=(0, 0)) -> reduces axis 0 once); NumPy raises
+                    # ValueError("duplicate value in 'axis'").  Set the flag to have C03 report it.
+                    stats["duplicate_axes_skipped"] = stats.get("duplicate_axes_skipped", 0) + 1
+                    continue
+                for label, fpt, fnp in [
+                    (f"sum:{s}:axes={t}", lambda: pt.sum(x, axis=t), lambda: np.sum(a, axis=t)),
+                    (f"amax:{s}:axes={t}", lambda: pt.amax(x, axis=t), lambda: np.amax(a, axis=t)),
+                    (f"all:{s}:axes={t}", lambda: pt.all(xb, axis=t), lambda: np.all(a, axis=t)),
+                    (f"squeeze:{s}:axes={t}", lambda: pt.squeeze(x, axis=t), lambda: np.squeeze(a, axis=t)),
+                ]:
+                    cases += 1
+                    dis += _cmp(ctx, label, fpt, fnp, stats)
+        for perm in itertools.product(range(-nd, nd), repeat=nd):
+            if nd:
+                cases += 1
+                dis += _cmp(ctx, f"transpose:{s}:{perm}", lambda: pt.transpose(x, perm), lambda: np.transpose(a, perm), stats)
+    ctx.note_batch("axis-tuples-vs-numpy", cases, dis, exhaustive=False, **stats)
+
+
 def batch_slices(ctx):
     """every 1-d slice: the NormalizedSlice pytato stores and the axis length it infers vs the Lean model
     (`ptNormSlice`, proved equal to CPython's slice adjustment in PtProofs/SliceLemmas) and vs NumPy"""
@@ -349,6 +458,8 @@ def run(ctx: common.Ctx):
     ctx.lean_obligations("PtProofs.SliceLemmas", THEOREMS_SLICE)
     batch_broadcast(ctx)
     batch_validation(ctx)
+    batch_axis_tuples(ctx)
+    batch_dtype_nary(ctx)
     batch_slices(ctx)
     batch_index_forms(ctx)
     batch_api_table(ctx)
